@@ -66,6 +66,8 @@ package didweb
 //@   ensures result == s
 //@ func NewResolver
 //@   prop C18
+//@   assume-benign
+//@   ensures [resolver-iff] result != nil
 //@   ensures [same-origin-redirects-only] result != nil && did(call (*client.StrictHTTPClient).SameOriginRedirectsOnly #1)
 //@        && result.HttpClient == core.HTTPRequestDoer(ret(call (*client.StrictHTTPClient).SameOriginRedirectsOnly #1))
 //@        && arg(call (*client.StrictHTTPClient).SameOriginRedirectsOnly #1, 0) == ret(call client.NewWithCache #1)
